@@ -167,6 +167,7 @@ type rig struct {
 
 	// receiver
 	rgen    int
+	rsem    chan struct{}
 	srvApp  *serverApp
 	srv     *stshttp.Server
 	srvStop chan bool
@@ -193,6 +194,7 @@ type rig struct {
 	// what the source directory held: every content (md5) each name ever had, the content
 	// expected to arrive in the end, names the harness changed during the run
 	versions    map[string][]string
+	queued      []queuedFile      // every version that was put into the queue cache
 	emptied     map[string]bool   // files the harness truncated to zero length (and has not refilled)
 	damaged     map[string]bool   // DamageFirst: parts that arrived damaged once already
 	wantBytes   map[string]string // C13: content of (unchanging) source files; parts handed to the gate keeper are compared with it
@@ -349,6 +351,17 @@ func (r *rig) startReceiver() {
 // system: a prefix of its completed system calls survives) and is started again by the
 // real start-up code on the surviving directory tree.
 func (r *rig) restartReceiver() {
+	// two deviations may ask for a restart at the same virtual instant (a data request and a
+	// validation on different goroutines): one incarnation at a time (a channel, not a mutex: waiting
+	// on it is durable blocking for synctest)
+	r.mu.Lock()
+	if r.rsem == nil {
+		r.rsem = make(chan struct{}, 1)
+	}
+	sem := r.rsem
+	r.mu.Unlock()
+	sem <- struct{}{}
+	defer func() { <-sem }()
 	old := r.recvDir
 	r.mu.Lock()
 	r.rgen++
@@ -770,6 +783,10 @@ func (s *storeWrap) GetOpener() sts.Open {
 		plain := open
 		open = func(f sts.File) (sts.Readable, error) {
 			s.r.common(s.gen, "open", f.GetName(), genericMenu)
+			// opening a file takes (virtual) time: everything else in the sender runs up to its next
+			// blocking point before the opener's caller goes on - a stop requested here is in force,
+			// and the hash stage's producer sits in its hand-over, when the worker looks again
+			time.Sleep(time.Millisecond)
 			return plain(f)
 		}
 	}
@@ -815,6 +832,20 @@ func (c *cacheWrap) Done(name string, whileLocked func(sts.Cached)) {
 		h(c.r, name)
 	}
 	c.FileCache.Done(name, whileLocked)
+}
+
+// Add: a hashed file enters the queue cache = it is queued for sending (observed, no deviation point).
+func (c *cacheWrap) Add(f sts.Hashed) {
+	c.r.mu.Lock()
+	c.r.queued = append(c.r.queued, queuedFile{Name: f.GetName(), Size: f.GetSize(), Hash: f.GetHash()})
+	c.r.mu.Unlock()
+	c.FileCache.Add(f)
+}
+
+type queuedFile struct {
+	Name string
+	Size int64
+	Hash string
 }
 
 func (c *cacheWrap) Persist() error {
